@@ -4,6 +4,7 @@ import (
 	"go/ast"
 	"go/token"
 	"go/types"
+	"strings"
 
 	"golang.org/x/tools/go/cfg"
 )
@@ -275,7 +276,7 @@ func c04PageLSN(c *Ctx, rule string) {
 				if v == nil || (v.Name() != "lastLSN" && v.Name() != "dirty") {
 					continue
 				}
-				if _, isNode := w.Locks().sharedFld[v]; !isNode {
+				if name, isNode := w.Locks().sharedFld[v]; !isNode || !strings.HasPrefix(name, "btreeNode.") {
 					continue
 				}
 				n++
